@@ -34,7 +34,7 @@ struct Desc {
 }
 
 #[derive(Clone, Debug)]
-struct Doc {
+pub(crate) struct Doc {
     creation: bool,
     rp_id: Option<String>,
     user_id: Vec<u8>,
@@ -51,7 +51,7 @@ struct Doc {
     prf: Option<(Vec<u8>, Option<Vec<u8>>)>,
 }
 
-fn gen_doc(rng: &mut Rng, creation: bool) -> Doc {
+pub(crate) fn gen_doc(rng: &mut Rng, creation: bool) -> Doc {
     let tr = ["usb", "nfc", "ble", "hybrid", "internal"];
     let gen_descs = |rng: &mut Rng| -> Vec<Desc> {
         (0..rng.range(0, 3))
@@ -90,7 +90,7 @@ fn gen_doc(rng: &mut Rng, creation: bool) -> Doc {
 
 /// How to present each kind of member.
 #[derive(Clone, Copy, Debug, PartialEq)]
-enum Bin {
+pub(crate) enum Bin {
     Array,
     Url,
     UrlPad,
@@ -98,7 +98,7 @@ enum Bin {
     StdPad,
 }
 #[derive(Clone, Copy, Debug, PartialEq)]
-enum Num {
+pub(crate) enum Num {
     Number,
     Str,
     Float,
@@ -106,15 +106,15 @@ enum Num {
 }
 
 #[derive(Clone, Copy, Debug)]
-struct Present {
-    bin: Bin,
-    num: Num,
+pub(crate) struct Present {
+    pub bin: Bin,
+    pub num: Num,
     /// inject unknown members at every object level
-    unknown_members: bool,
+    pub unknown_members: bool,
     /// inject unknown enumeration strings (and unknown list entries)
-    unknown_enums: bool,
+    pub unknown_enums: bool,
     /// use the alias `allowList` / `cable`
-    aliases: bool,
+    pub aliases: bool,
 }
 
 fn bin(b: &[u8], p: Bin) -> Value {
@@ -144,7 +144,7 @@ fn unknown_value(rng: &mut Rng) -> Value {
     }
 }
 
-fn render(d: &Doc, p: &Present, rng: &mut Rng) -> Value {
+pub(crate) fn render(d: &Doc, p: &Present, rng: &mut Rng) -> Value {
     let mut pk = Map::new();
     let inject = |m: &mut Map<String, Value>, rng: &mut Rng, name: &str| {
         if p.unknown_members {
